@@ -47,6 +47,9 @@ type Replayer interface {
 	Replay(p *Parent, v *Violation) int
 }
 
+// CPUSeconds returns user+system CPU time of a process (-1 if unknown).
+func CPUSeconds(pid int) float64 { return cpuSeconds(pid) }
+
 func cpuSeconds(pid int) float64 {
 	b, err := os.ReadFile(fmt.Sprintf("/proc/%d/stat", pid))
 	if err != nil {
